@@ -135,7 +135,7 @@ def gen(rng, ctx):
     if multi and rng.random() < 0.3:
         g = rng.choice(multi)
         retype = [g, rng.choice([t for t in G.GATESN if t != tps[g]])]
-    return {"c": cd, "kind": kind, "hostile": tag, "assumps": assumps, "via": rng.choice(["graph", "api"]), "val_int": rng.random() < 0.3, "retype": retype}
+    return {"c": cd, "kind": kind, "hostile": tag, "assumps": assumps, "via": rng.choice(["graph", "api", "sparse"]), "val_int": rng.random() < 0.3, "retype": retype}
 
 
 def _lib(ctx, name):
@@ -257,7 +257,7 @@ def check(case, ctx):
         return check_large(case, ctx)
     cg = ctx.cg
     cd = case["c"]
-    via = case["via"] if ("cyclic" not in case["kind"] and case["kind"] != "selfloop") else "graph"
+    via = case["via"] if (("cyclic" not in case["kind"] and case["kind"] != "selfloop") or case["via"] == "sparse") else "graph"
     c = G.build(cg, cd, via)
     nv = len(ctx.violations)
     decide(case, ctx, c, first=True)
